@@ -228,6 +228,15 @@ class Run:
                         j -= 1
                     x["_ctx"] = evs[j] if j != i else None
                     x["_event"] = evs[i]
+                    if x.get("ev") == "Crash" and not x.get("detail"):
+                        # name the fault: the first library frame of the worker's dying stack trace
+                        try:
+                            msg = json.loads(evs[i]).get("msg", "")
+                            m = re.search(r"github\.com/cloudwego/dynamicgo/([\w/.\-]+?)\.((?:\(\*?\w+\)\.)?\w+)", msg)
+                            kind = "fault" if "unexpected fault address" in msg else ("killed" if "WORKER KILLED" in msg else ("race" if "DATA RACE" in msg else "fatal"))
+                            x["detail"] = kind + ":" + (m.group(1) + "." + m.group(2) if m else "")
+                        except Exception:
+                            pass
                     for src in (evs[i], evs[j]):
                         if '"case":' in src:
                             try:
